@@ -209,6 +209,10 @@ def c14(tier, seed):
     for k, (rv, _) in enumerate(assigns[:5]):
         scns.append(scenario("cat_1d.v%d" % k, [cat("A", 4, miss=[3], vals=rv[:2] + [7] + rv[2:])]))
     scns.append(scenario("cat_x_cat.v.u", [cat("A", 3, vals=[1, 2, 3]), cat("B", 3, vals=[2, None, 1])], weighted=False))
+    # fractional weights: mean / deviation / error as stated; the median only where every
+    # count involved is whole (C14: "for integer counts")
+    scns += C.fractional([scns[1], scns[2]] + [x for x in scns if x["name"] in
+                                               ("mr_x_cat.v", "cat_1d.v0", "cat_1d.v1")])
     ins = _with_insertions([scenario("cat_x_cat.v.ins", [cat("A", 3, vals=[1, 2, 3]), cat("B", 3, vals=[3, None, 1])]),
                             scenario("cat_1d.v.ins", [cat("A", 4, miss=[2], vals=[1, 9, 2, 4])])],
                            6 if tier == "quick" else 30, seed)
@@ -238,6 +242,7 @@ def c15(tier, seed):
         scenario("cat_x_cat_snan", [cat("A", 3), cat("B", 2)], **ynan),
         scenario("numarr_x_cat_snan", [numarr("N", 2), cat("B", 2)], **ynan),
     ]
+    plain += C.fractional([plain[0], plain[1], plain[5]])
     ins = _with_insertions([
         scenario("cat_x_cat_s.ins", [cat("A", 3), cat("B", 3)], **y),
         scenario("numarr_x_cat_s.ins", [numarr("N", 2), cat("B", 3, miss=[2])], **y),
@@ -326,7 +331,7 @@ def c17(tier, seed):
         scenario("cat_1d.ins", [cat("A", 4, miss=[3])], population=12, filter={"style": "old", "fn": 1, "un": 3}),
     ], 6 if tier == "quick" else 30, seed)
     return dict(
-        jobs=_value_jobs("C17", "c17", scns + ins, tier, seed,
+        jobs=_value_jobs("C17", "c17", scns + ins + C.fractional(scns[:3] + ins[:1]), tier, seed,
                          bfs_budget=300 if tier == "quick" else 8000,
                          sim_budget=150 if tier == "quick" else 6000),
         rule="every filter-statistics shape (absent, new, new+cat-date, zero, old, zero "
@@ -434,6 +439,7 @@ def c08(tier, seed):
         scenario("cat_1d_y", [cat("A", 3)], **y),
         scenario("cat_x_cat.u", [cat("A", 3), cat("B", 3)], weighted=False),
     ]
+    base += C.fractional([base[0], base[5], base[7]], weights=(1, 3))
     scns = []
     for i, s in enumerate(base):
         s = dict(s)
@@ -502,6 +508,7 @@ def c05(tier, seed):
                                                      4: {"of": [3], "at": "after", "ref": 2}}),
                                  cat("B", 3)]),
     ]
+    base += C.fractional([base[0], base[2], base[6]], wden=4, weights=(1, 3, 6))
     scns = []
     for i, s in enumerate(base):
         s = dict(s)
@@ -656,6 +663,7 @@ def c13(tier, seed):
         scenario("cat_x_mr.ovw", [cat("A", 2), mr("B", 2)], overlaps=True),
         scenario("mr_x_mr.ov", [mr("A", 2), mr("B", 2)], overlaps=True, weighted=False),
     ]
+    base += C.fractional([base[1], base[2], base[3], base[8]])
     pws = [None, {"alpha": [0.05, 0.1], "only_larger": False}, {"alpha": [0.01]},
            {"alpha": [0.2, 0.05], "only_larger": True}, {"alpha": [0.5], "only_larger": False}]
     scns = []
